@@ -496,7 +496,12 @@ func (c *DefaultCtx) Format(handlers ...ResFmt) error {
 	c.Vary(HeaderAccept)
 
 	if c.Get(HeaderAccept) == "" {
-		c.Response().Header.SetContentType(handlers[0].MediaType)
+		for _, h := range handlers {
+			if h.MediaType != "default" {
+				c.Response().Header.SetContentType(h.MediaType)
+				return h.Handler(c)
+			}
+		}
 		return handlers[0].Handler(c)
 	}
 
